@@ -16,7 +16,7 @@ the 64-byte `Marshal` form, a nil signature (`Signature{}` with nil point) is `-
   perm <seed> <n> <k> <j0> …                  → i0,i1,…
   g1add <P> <Q> | g1mul <P> <k> | g1unm <bytes>
   recover <k> <js|-> <id> <sig> …        → ok <sig|-> | PANIC
-  gen <k> <js|-> <id> <sig> …            → <add><gen>,… <groupSign|-> | PANIC   (GroupSignGenerator.AddWitnessSign per arrival)
+  gen|lgen <k> <js|-> <id> <sig> …         → <add><gen>,… <groupSign|-> | PANIC   (GroupSignGenerator.AddWitnessSign per arrival)
   g2add <P> <Q> | g2mul <P> <k>          → <G2 marshal> (`00` = infinity)
   aggpk <g2base> <k1> …                  → ok <AggregatePubkeys of kᵢ·g₂> | nil
   dkg <msg> <ghash> <hm> <g2base> <k> <n> <m> <js|-> seeds(n) ids(n) coeffs(n·k) arrival(m)   (msg, ghash, seeds: Go only)
@@ -94,7 +94,8 @@ def chunks {α} (k : Nat) : Nat → List α → List (List α)
 
 def step (_ : Unit) (line : String) : Unit × String :=
   let out : String :=
-    match splitWords line with
+    -- `lgen` (the twin generator of package logical) has the semantics of `gen`
+    match (match splitWords line with | "lgen" :: rest => "gen" :: rest | ws => ws) with
     | "share" :: i :: cs =>
       match nat? i, nats? cs with
       | some x, some cs' =>
